@@ -1333,8 +1333,22 @@ func (e *Engine) doReturn(st *State, res Value) bool {
 func (e *Engine) violation(st *State, kind, msg string) {
 	v := &Violation{Msg: msg, Kind: kind, state: st, RandomSelect: st.randomSelect}
 	v.Trace = append([]string(nil), st.trace...)
-	if vec, ok := e.modelVector(st); ok {
+	// prefer a counterexample whose symbolic buffers are short enough to be built natively
+	small, hasBytes := st, false
+	for _, n := range st.nondets {
+		if n.Kind == "bytes" {
+			if !hasBytes {
+				small, hasBytes = st.clone(), true
+			}
+			small.addPC(e.ts.App(BoolSort, "bvule", n.T, e.ts.BVInt(64, 256)))
+		}
+	}
+	if vec, ok := e.modelVector(small); ok {
 		v.Vector, v.HasVec = vec, true
+	} else if hasBytes {
+		if vec, ok := e.modelVector(st); ok {
+			v.Vector, v.HasVec = vec, true
+		}
 	}
 	// de-duplicate by message+kind (one replay per failing site is enough)
 	for _, o := range e.Violations {
